@@ -188,6 +188,9 @@ def r4(ctx):
     from . import c02
     c02.order_rule(ctx, P, "C10.R4", APPEND_BATCH, BS_APPEND, False)
     c02.order_rule(ctx, P, "C10.R4", VAP, BS_PUT, True)
+    # clear is destructive: the drop entry is logged (and checked) before the bitfield is cleared
+    # and before the data bytes are deleted, so that a failed entry write leaves nothing half-done
+    c02.r3(ctx, P, "C10.R4")
 
 
 def r5(ctx, prop=P, rule="C10.R5"):
